@@ -14,7 +14,7 @@ from ..oracles import floodfill as ff
 from ..oracles import topo
 
 PROP = "C15"
-RULE = ("Generator: (a) every raster over a 2-letter alphabet with <= 12 cells (quick) / <= 16 cells, one dtype <= 18 cells (thorough) and every raster over a 3-letter "
+RULE = ("Generator: (a) every raster over a 2-letter alphabet with <= 12 cells (quick) / <= 16 cells, one dtype <= 20 cells (thorough) and every raster over a 3-letter "
         "alphabet (three values, or two values + a masked cell) with <= 9 cells (one variant <= 10 in thorough), for every shape h x w incl. 1xN, Nx1, 1x1, connectivity 4 and 8; "
         "(b) random rasters up to 24x24 from topology constructors (spiral, nested rings, comb/U, serpentine/S, tree, checkerboard, diagonal "
         "stripes, diamonds, holes touching the border, staircase, noise) cropped, flipped, padded and perturbed; well-separated values in "
@@ -452,7 +452,7 @@ def shards(tier):
     out = [("fixtures", lambda ctx: drive_enum(ctx, body_fixture, fixture_cases(), space="tests/test_polygonize.py fixtures", size=20))]
     if tier == "thorough":
         nrand, per, side = 20, 2000, 24
-        plan = [("bin_i64", 18, 16), ("bin_f64", 16, 8), ("bin_u32", 12, 1), ("ter_i32", 10, 4), ("ter_mask_f32", 9, 2),
+        plan = [("bin_i64", 20, 32), ("bin_f64", 16, 8), ("bin_u32", 12, 1), ("ter_i32", 10, 4), ("ter_mask_f32", 9, 2),
                 ("ter_mask_i64", 9, 2), ("ter_f64", 9, 2)]
     else:
         nrand, per, side = 10, 400, 24
@@ -472,7 +472,7 @@ def shards(tier):
     return out
 
 
-LEVEL_TEXT = ("Bounded-exhaustive plus randomised search: every 2-letter raster of every shape with <= 12 cells (quick) / <= 16 cells, one dtype <= 18 cells (thorough) and every "
+LEVEL_TEXT = ("Bounded-exhaustive plus randomised search: every 2-letter raster of every shape with <= 12 cells (quick) / <= 16 cells, one dtype <= 20 cells (thorough) and every "
               "3-letter raster (incl. 'masked' as a letter) with <= 9 cells (one variant <= 10 in thorough), both connectivities, plus thousands of random rasters up to 24x24 built from "
               "spiral / ring / comb / serpentine / checkerboard / diagonal / hole constructors over five dtypes, six mask dtypes and densities, affine "
               "transforms and layouts; every result is rasterised back (even-odd test of each cell centre) and compared with a flood-fill partition, "
